@@ -66,6 +66,7 @@ fn meta(prop: &str) -> (&'static str, Vec<&'static str>, serde_json::Value) {
                 "after a write-class hard fault the destination's content is unconstrained (fs::write truncates first; the property does not promise atomic replacement)",
                 "fmt scenario: rustfmt is a deterministic STUB (fake-rustfmt) whose failure mode comes from the plan; how the compiler maps rustfmt's exit codes is not judged, only that compile() delivers what compile_to_string() returns, that the text is the raw bindings or the stub's real output, that a healthy formatter is used and that both calls return",
                 "cli scenario: the real rasn_compiler_cli binary (built from /repo with --features cli, hooks off) runs as a child process under the same LD_PRELOAD seam; runs in which a directory-walk call was failed are only checked for not crashing",
+                "seq scenario: 2..4 compile() operations per process on 1..3 sim threads, each with its own sources and destination; the fault-free run is followed by ten runs with ONE sampled fault each at a call position of the recorded trace, under the recorded schedule; calls are attributed to operations through the op-begin/op-end notes of the event log",
                 "macro scenario: a capture proc-macro crate include!s /repo/rasn-compiler-derive/src/lib.rs, so the working tree's asn1! runs inside a real rustc (invoked directly, with a cleared environment so that no rustfmt is reachable); expansions are compared as canonical token text with the parse of compile_to_string() on the text the macro is documented to build (bare snippets wrapped in the `asn1` AUTOMATIC TAGS dummy module)",
             ],
             serde_json::json!({"components": components, "rule": "a case = (workload, fault plan): workload = generated module set x malformed variant x backend/config x delivery (literals/files) x builder path x output mode x destination state; every workload is run fault-free, then once per (call position of its recorded I/O trace x applicable fault kind), then with sampled double/triple faults. distinct = distinct (plan signature, I/O-trace signature) pairs; every run evaluates at least one oracle, so every run is non-trivial"}),
